@@ -14,12 +14,12 @@ impl<'a> Assembler<'a> {
     pub fn offset(&self) -> usize {
         self.offset
     }
-    // Verification contract (guard: cfg(kani)): the carrier-independent part of the writer's contract (see /verif/kani).
-    #[cfg_attr(kani, kani::requires(len >= 1 && len <= core::mem::size_of::<<IT as BitValue>::ValueType>() * 8
+    // Verification contract (guard: cfg(all(kani, rtcm_rs_verif_contracts))): the carrier-independent part of the writer's contract (see /verif/kani).
+    #[cfg_attr(all(kani, rtcm_rs_verif_contracts), kani::requires(len >= 1 && len <= core::mem::size_of::<<IT as BitValue>::ValueType>() * 8
         && self.data.len() <= 0x1000_0000 && self.offset <= 0x8000_0000))]
-    #[cfg_attr(kani, kani::ensures(|r| r.is_ok() == (self.data.len() * 8 >= old(self.offset) + len)))]
-    #[cfg_attr(kani, kani::ensures(|r| self.offset == old(self.offset) + if r.is_ok() { len } else { 0 }))]
-    #[cfg_attr(kani, kani::modifies(&self.offset, self.data))]
+    #[cfg_attr(all(kani, rtcm_rs_verif_contracts), kani::ensures(|r| r.is_ok() == (self.data.len() * 8 >= old(self.offset) + len)))]
+    #[cfg_attr(all(kani, rtcm_rs_verif_contracts), kani::ensures(|r| self.offset == old(self.offset) + if r.is_ok() { len } else { 0 }))]
+    #[cfg_attr(all(kani, rtcm_rs_verif_contracts), kani::modifies(&self.offset, self.data))]
     pub fn put<IT: BitValue>(
         &mut self,
         value: <IT as BitValue>::ValueType,
